@@ -228,7 +228,7 @@ def run_impl(case):
     return t, D, o
 
 
-def coq_case(t, o):
+def coq_case(t, o, flag_sqrt=True):
     n = T.shape(t)[0]
     numc = nump = True
     lus, chs = [], []
@@ -245,9 +245,11 @@ def coq_case(t, o):
             numc = False
     sq = []
     for x, y in sqrt_pairs(t, []):
-        fy, fx = L.CQ.of(y), L.CQ.of(x)
-        if not (np.isfinite(y.real) and np.isfinite(y.imag)) or not (fy * fy == fx):
-            nump = False
+        finite = bool(np.isfinite(y.real) and np.isfinite(y.imag))
+        fx = L.CQ.of(x)
+        fy = L.CQ.of(y) if finite else None
+        if not finite or not (fy * fy == fx):
+            nump = nump and not flag_sqrt   # the repaired plu rule takes no square roots
             numc = False
             continue
         if not (fy * fy.conj() == fx):
@@ -258,7 +260,7 @@ def coq_case(t, o):
     e = "[]"
     o["numc"], o["nump"] = bool(numc and okC), bool(nump and okP)
     return ("{| de := " + L.coq_tree(t) + f"; dn := {n}; dlu := [" + ";".join(lus) + "]; dchol := [" + ";".join(chs) + "]; dsqrt := [" + ";".join(dict.fromkeys(sq)) + "]; "
-            f"dnumc := {b(numc and okC)}; dnump := {b(nump and okP)}; dpd := {b(o['pd'] and okC)}; "
+            f"dnumc := {b(numc and okC)}; dnump := {b(nump and okP)}; dflag := {b(flag_sqrt)}; dpd := {b(o['pd'] and okC)}; "
             f"dtyC := {o['tyC'] if okC else 'DtOp 0'}; dtyP := {o['tyP'] if okP else 'DtOp 0'}; dtyL := {o['tyL'] if okP else 'DtOp 0'}; dtyU := {o['tyU'] if okP else 'DtOp 0'}; "
             f"dC := {L.qmat(o['C']) if numc and okC else e}; dP := {L.qmat(o['P']) if nump and okP else e}; dL := {L.qmat(o['L']) if nump and okP else e}; "
             f"dU := {L.qmat(o['U']) if nump and okP else e}; dtol2 := Q2Qc (1 # 10000000000000000) |}}")
@@ -332,7 +334,7 @@ def run(ctx):
             n_ch += 1
             n_ch_exact += bool(L.chol_exact(a, Lm))
         bad = oracle(D, o)
-        terms.append(coq_case(t, o))
+        terms.append(coq_case(t, o, "plu_diagonal_negative_nan" in present))
         meta.append((ci, bad, o))
     shard = ctx.budget(50, 100)
     jobs = []
